@@ -254,3 +254,284 @@ Proof.
     + unfold touch2, ref_set_resolved, add_backref, ref_set_refid, ref_del_refname, upd. simpl.
       rewrite <- app_assoc. simpl. exact Hnd.
 Qed.
+
+(* ================================================================ assembly: apply = the transcription *)
+Lemma NoDup_map_unique {A B} (f : A -> B) (l : list A) x y :
+  NoDup (map f l) -> In x l -> In y l -> f x = f y -> x = y.
+Proof.
+  induction l as [|a l IH]; simpl; [tauto|]. intros Hnd Hx Hy E. inversion Hnd; subst.
+  destruct Hx as [->|Hx], Hy as [->|Hy]; auto.
+  - exfalso. apply H1. rewrite E. apply in_map. exact Hy.
+  - exfalso. apply H1. rewrite <- E. apply in_map. exact Hx.
+Qed.
+
+Lemma NoDup_map_filter {A B} (f : A -> B) (p : A -> bool) l : NoDup (map f l) -> NoDup (map f (filter p l)).
+Proof.
+  induction l as [|a l IH]; simpl; auto. intro H. inversion H; subst.
+  destruct (p a); simpl; auto. constructor; auto.
+  intro Hin. apply H2. apply in_map_iff in Hin as [x [E Hx]]. apply filter_In in Hx as [Hx _].
+  rewrite <- E. apply in_map. exact Hx.
+Qed.
+
+Lemma NoDup_app_l {A} (a b : list A) : NoDup (a ++ b) -> NoDup a.
+Proof.
+  induction a as [|x a IH]; simpl; [constructor|]. intro H. inversion H; subst. constructor; auto.
+  intro Hin. apply H2. apply in_or_app. left. exact Hin.
+Qed.
+
+Section Assembly.
+  Variable isdigit : str -> bool.
+  Variable g : regs.
+  Hypothesis W : wf isdigit g.
+
+  Definition idxs_of (ls : list str) : list nat :=
+    flat_map (fun l => map r_idx (refs_of (g_footnote_refs g) l)) ls.
+
+  Lemma idx_nodup : NoDup (map r_idx (g_allrefs g)).
+  Proof. rewrite (wf_idx _ _ W). apply seq_NoDup. Qed.
+
+  Lemma idxs_of_In i ls :
+    In i (idxs_of ls) <-> exists r, In r (g_allrefs g) /\ r_idx r = i /\ In (r_label r) ls.
+  Proof.
+    unfold idxs_of. rewrite in_flat_map. split.
+    - intros [l [Hl Hi]]. rewrite (wf_frefs _ _ W) in Hi. apply in_map_iff in Hi as [r [E Hr]].
+      apply filter_In in Hr as [Hr Hlab]. apply str_eqb_eq in Hlab. exists r. subst. auto.
+    - intros [r [Hr [E Hl]]]. exists (r_label r). split; auto. rewrite (wf_frefs _ _ W).
+      apply in_map_iff. exists r. split; auto. apply filter_In. split; auto. apply str_eqb_refl.
+  Qed.
+
+  Lemma idxs_of_nodup ls : NoDup ls -> NoDup (idxs_of ls).
+  Proof.
+    induction ls as [|l ls IH]; intro H; [constructor|]. inversion H; subst.
+    change (idxs_of (l :: ls)) with (map r_idx (refs_of (g_footnote_refs g) l) ++ idxs_of ls).
+    apply NoDup_app_intro; auto.
+    - rewrite (wf_frefs _ _ W). apply NoDup_map_filter, idx_nodup.
+    - intros i Hi Hi2. rewrite (wf_frefs _ _ W) in Hi. apply in_map_iff in Hi as [r [E Hr]].
+      apply filter_In in Hr as [Hr Hlab]. apply str_eqb_eq in Hlab.
+      apply idxs_of_In in Hi2 as [r' [Hr' [E' Hl']]].
+      assert (r = r') by (apply (NoDup_map_unique r_idx (g_allrefs g)); auto using idx_nodup; congruence).
+      subst r'. rewrite Hlab in Hl'. contradiction.
+  Qed.
+
+  Lemma idxs_of_mem r ls : In r (g_allrefs g) -> mem_nat (r_idx r) (idxs_of ls) = mem_str (r_label r) ls.
+  Proof.
+    intro Hr. destruct (mem_str (r_label r) ls) eqn:E.
+    - apply mem_nat_In, idxs_of_In. exists r. repeat split; auto. apply mem_str_In. exact E.
+    - apply mem_nat_false. intro Hin. apply idxs_of_In in Hin as [r' [Hr' [E' Hl']]].
+      assert (r' = r) by (apply (NoDup_map_unique r_idx (g_allrefs g)); auto using idx_nodup).
+      subst r'. apply mem_str_In in Hl'. congruence.
+  Qed.
+
+  Lemma idxs_of_app a b : idxs_of (a ++ b) = idxs_of a ++ idxs_of b.
+  Proof. unfold idxs_of. apply flat_map_app. Qed.
+
+  (* ---- resolve_footnotes_and_citations ---- *)
+  Definition after_manual (ds : dstate) (fs : list fn) : dstate :=
+    upd ds (ds_labels ds)
+        (ds_backlog ds ++ flat_map (fun f => map (fun r => (f_label f, r_idx r)) (refs_of (g_footnote_refs g) (f_label f))) fs)
+        (ds_text ds)
+        (ds_refid ds ++ flat_map (fun f => map (fun r => (r_idx r, f_label f)) (refs_of (g_footnote_refs g) (f_label f))) fs)
+        (ds_norefname ds ++ idxs_of (map f_label fs)) (ds_resolved ds ++ idxs_of (map f_label fs))
+        (ds_problem ds) (ds_autolabels ds) (ds_errors ds) (ds_regs ds).
+
+  Lemma after_manual_nil ds : after_manual ds [] = ds.
+  Proof. unfold after_manual, upd. simpl. rewrite !app_nil_r. destruct ds; reflexivity. Qed.
+
+  Definition rfc_step (ds : dstate) (footnote : fn) : res dstate :=
+    do ds <- fold_res (fun (ds : dstate) (label : str) =>
+         if dmem (g_footnote_refs (ds_regs ds)) label then
+           (let reflist := refs_of (g_footnote_refs (ds_regs ds)) label in
+            do ds <- resolve_references_src ds footnote reflist; Ok ds)
+         else Ok ds) (fn_names footnote) ds;
+    Ok ds.
+
+  Lemma rfc_fold fs : forall ds,
+    ds_regs ds = g ->
+    NoDup (ds_resolved ds ++ idxs_of (map f_label fs)) ->
+    fold_res rfc_step fs ds = Ok (after_manual ds fs).
+  Proof.
+    induction fs as [|f fs IH]; intros ds Hg Hnd.
+    - simpl. rewrite after_manual_nil. reflexivity.
+    - cbn [fold_res]. unfold rfc_step at 1, fn_names. cbn [fold_res bind]. rewrite Hg.
+      cbn [map] in Hnd. change (idxs_of (f_label f :: map f_label fs))
+        with (map r_idx (refs_of (g_footnote_refs g) (f_label f)) ++ idxs_of (map f_label fs)) in Hnd.
+      rewrite app_assoc in Hnd.
+      assert (Hstep : (if dmem (g_footnote_refs g) (f_label f)
+                       then (do ds0 <- resolve_references_src ds f (refs_of (g_footnote_refs g) (f_label f)); Ok ds0)
+                       else Ok ds)
+                      = Ok (touched2 f ds (refs_of (g_footnote_refs g) (f_label f)))).
+      { destruct (dmem (g_footnote_refs g) (f_label f)) eqn:E.
+        - rewrite resolve_references_spec; [reflexivity|]. eapply NoDup_app_l. exact Hnd.
+        - unfold refs_of. apply dmem_false in E. rewrite E. rewrite touched2_nil. reflexivity. }
+      cbv zeta. rewrite Hstep. cbn [bind].
+      rewrite IH; auto.
+      unfold after_manual, touched2, upd. simpl. rewrite <- !app_assoc. reflexivity.
+  Qed.
+End Assembly.
+
+(* ---- reading the logs back ---- *)
+Lemma filter_key_map (k0 k : str) (vs : list nat) :
+  filter (fun p : str * nat => str_eqb (fst p) k) (map (fun v => (k0, v)) vs)
+  = if str_eqb k0 k then map (fun v => (k0, v)) vs else [].
+Proof.
+  induction vs as [|v vs IH]; simpl; [destruct (str_eqb k0 k); reflexivity|].
+  rewrite IH. destruct (str_eqb k0 k); reflexivity.
+Qed.
+
+Definition kv_log (kv : list (str * list nat)) : list (str * nat) :=
+  flat_map (fun p => map (fun v => (fst p, v)) (snd p)) kv.
+
+Lemma kv_filter_none kv k : ~ In k (map fst kv) -> filter (fun p : str * nat => str_eqb (fst p) k) (kv_log kv) = [].
+Proof.
+  unfold kv_log. induction kv as [|[k0 v0] kv IH]; simpl; auto. intro H.
+  rewrite filter_app, filter_key_map, IH by tauto.
+  destruct (str_eqb k0 k) eqn:E; auto. apply str_eqb_eq in E. subst. tauto.
+Qed.
+
+Lemma kv_lookup kv k vs :
+  NoDup (map fst kv) -> In (k, vs) kv ->
+  map snd (filter (fun p : str * nat => str_eqb (fst p) k) (kv_log kv)) = vs.
+Proof.
+  unfold kv_log. induction kv as [|[k0 v0] kv IH]; simpl; [tauto|]. intros Hnd Hin.
+  inversion Hnd; subst. rewrite filter_app, filter_key_map, map_app.
+  destruct Hin as [Hin|Hin].
+  - inversion Hin; subst. rewrite str_eqb_refl.
+    fold (kv_log kv). rewrite kv_filter_none by assumption. simpl. rewrite app_nil_r, map_map. simpl. apply map_id.
+  - assert (Hne : str_eqb k0 k = false).
+    { apply str_eqb_neq. intro. subst k0. apply H1. change k with (fst (k, vs)). apply in_map. exact Hin. }
+    rewrite Hne. simpl. apply IH; auto.
+Qed.
+
+Lemma dget_map_key {X} (key : X -> str) (d : X -> str) (xs : list X) x :
+  NoDup (map key xs) -> In x xs -> dget (map (fun y => (key y, d y)) xs) (key x) = Some (d x).
+Proof.
+  induction xs as [|y xs IH]; simpl; [tauto|]. intros Hnd Hin. inversion Hnd; subst.
+  destruct Hin as [->|Hin]; [rewrite str_eqb_refl; reflexivity|].
+  destruct (str_eqb (key x) (key y)) eqn:E; auto.
+  apply str_eqb_eq in E. exfalso. apply H1. rewrite <- E. apply in_map. exact Hin.
+Qed.
+
+Lemma flat_map_map' {A B C} (g : A -> B) (f : B -> list C) l : flat_map f (map g l) = flat_map (fun x => f (g x)) l.
+Proof. induction l as [|x l IH]; simpl; auto. rewrite IH. reflexivity. Qed.
+
+Lemma existsb_ext_in {A} (f g : A -> bool) l : (forall x, In x l -> f x = g x) -> existsb f l = existsb g l.
+Proof. induction l as [|x l IH]; simpl; auto. intro H. rewrite H, IH; auto. Qed.
+
+(* the whole transform, as translated from the installed docutils *)
+Definition docutils_footnotes_src (s : fstate) : res fstate :=
+  do ds <- footnotes_apply_src (ds_init (s_regs s)); Ok (project s ds).
+
+Theorem docutils_footnotes_src_eq isdigit (s : fstate) :
+  wf isdigit (s_regs s) -> docutils_footnotes_src s = docutils_footnotes s.
+Proof.
+  intro W. unfold docutils_footnotes_src, docutils_footnotes, footnotes_apply_src. cbv zeta.
+  set (g := s_regs s) in *.
+  change (reset_autolabels (ds_init g)) with (ds_init g).
+  rewrite number_footnotes_src_spec. change (ds_regs (ds_init g)) with g. unfold autofootnote_start.
+  destruct (number_footnotes g (g_autofootnotes g) 1) as [outs|e] eqn:En; cbn [bind]; [|reflexivity].
+  destruct (number_footnotes_spec _ _ _ _ En) as [Hfn [Hall _]]. rewrite Forall_forall in Hall.
+  cbn [fst].
+  set (ds1 := after_auto (ds_init g) outs).
+  (* labels *)
+  pose proof (wf_nodup _ _ W) as Hnd_ids. pose proof (wf_labels _ _ W) as Hperm.
+  assert (HndL : NoDup (map f_label (g_autofootnotes g) ++ map f_label (g_footnotes g))).
+  { rewrite <- map_app. eapply Permutation_NoDup; [apply Permutation_sym, Hperm|exact Hnd_ids]. }
+  assert (Hlbl : map (fun o => f_label (fo_fn o)) outs = map f_label (g_autofootnotes g)).
+  { rewrite <- Hfn, map_map. reflexivity. }
+  assert (Hback : flat_map fo_backrefs outs = idxs_of g (map f_label (g_autofootnotes g))).
+  { rewrite <- Hlbl. unfold idxs_of. rewrite flat_map_map'. apply flat_map_ext_in.
+    intros o Ho. destruct (Hall o Ho) as [_ [_ [_ [_ B]]]]. exact B. }
+  assert (Hres1 : ds_resolved ds1 = idxs_of g (map f_label (g_autofootnotes g))) by (subst ds1; simpl; exact Hback).
+  assert (Hnor1 : ds_norefname ds1 = ds_resolved ds1) by reflexivity.
+  assert (Hrid1 : map fst (ds_refid ds1) = ds_resolved ds1).
+  { subst ds1. simpl. clear. induction outs as [|o outs IH]; simpl; auto.
+    rewrite map_app, IH, map_map. simpl. rewrite map_id. reflexivity. }
+  (* number_footnote_references *)
+  rewrite nfr_unfold. change (ds_regs ds1) with g.
+  rewrite nfr_run; [|reflexivity|].
+  2: { intro r. unfold ref_resolved, ref_has_refname. rewrite Hnor1. apply orb_negb_r. }
+  cbn [bind].
+  assert (Hex : existsb (fun r => negb (ref_resolved ds1 r || ref_has_refid ds1 r)) (g_autofootnote_refs g)
+                = existsb (fun r => negb (mem_str (r_label r) (g_nameids g))) (g_autofootnote_refs g)).
+  { apply existsb_ext_in. intros r Hr. rewrite (wf_arefs _ _ W) in Hr. apply filter_In in Hr as [Hr Ha].
+    unfold ref_resolved, ref_has_refid. rewrite Hrid1, Hres1, orb_diag, (idxs_of_mem isdigit g W r _ Hr).
+    f_equal.
+    pose proof (wf_rauto _ _ W) as Hra. rewrite Forall_forall in Hra. rewrite (Hra r Hr) in Ha.
+    apply negb_true_iff in Ha.
+    pose proof (wf_manual _ _ W) as Hm. rewrite Forall_forall in Hm.
+    destruct (mem_str (r_label r) (g_nameids g)) eqn:E.
+    - apply mem_str_In in E. apply mem_str_In.
+      apply (Permutation_in _ (Permutation_sym Hperm)) in E. rewrite map_app in E.
+      apply in_app_or in E as [E|E]; auto.
+      apply in_map_iff in E as [f [Ef Hf]]. destruct (Hm f Hf) as [_ Hd]. rewrite Ef in Hd. congruence.
+    - apply mem_str_false_notin in E. apply mem_str_false_notin. intro Hin. apply E.
+      apply (Permutation_in _ Hperm). rewrite map_app. apply in_or_app. left. exact Hin. }
+  rewrite Hex. clear Hex.
+  set (ds2 := if existsb (fun r => negb (mem_str (r_label r) (g_nameids g))) (g_autofootnote_refs g)
+              then add_error ds1 WTooMany else ds1).
+  assert (Hds2 : (let '(ds, _, _) := (if existsb (fun r => negb (mem_str (r_label r) (g_nameids g))) (g_autofootnote_refs g)
+                                      then (add_error ds1 WTooMany, O, true) else (ds1, O, false)) in Ok ds)
+                 = @Ok dstate ds2).
+  { subst ds2. destruct (existsb _ _); reflexivity. }
+  rewrite Hds2. cbn [bind].
+  assert (Hregs2 : ds_regs ds2 = g) by (subst ds2; destruct (existsb _ _); reflexivity).
+  assert (Hres2 : ds_resolved ds2 = ds_resolved ds1) by (subst ds2; destruct (existsb _ _); reflexivity).
+  assert (Hlab2 : ds_labels ds2 = ds_labels ds1) by (subst ds2; destruct (existsb _ _); reflexivity).
+  assert (Hbl2 : ds_backlog ds2 = ds_backlog ds1) by (subst ds2; destruct (existsb _ _); reflexivity).
+  assert (Herr2 : ds_errors ds2 = too_many g).
+  { subst ds2. unfold too_many. destruct (existsb _ _); reflexivity. }
+  (* resolve_footnotes_and_citations *)
+  assert (Hrfc : resolve_footnotes_and_citations_src ds2
+                 = do ds' <- fold_res rfc_step (g_footnotes (ds_regs ds2)) ds2; Ok ds') by reflexivity.
+  rewrite Hrfc, Hregs2, (rfc_fold g); auto.
+  2: { rewrite Hres2, Hres1, <- idxs_of_app. apply (idxs_of_nodup isdigit g W). exact HndL. }
+  cbn [bind]. unfold project. fold g.
+  set (dsF := after_manual g ds2 (g_footnotes g)).
+  (* the back-reference log as a key/value list *)
+  set (kv := map (fun o => (f_label (fo_fn o), fo_backrefs o)) outs
+             ++ map (fun f => (f_label f, map r_idx (refs_of (g_footnote_refs g) (f_label f)))) (g_footnotes g)).
+  assert (Hkv : ds_backlog dsF = kv_log kv).
+  { subst dsF kv. unfold after_manual, upd, kv_log. cbn [ds_backlog]. rewrite Hbl2. subst ds1. cbn [ds_backlog after_auto upd ds_init app].
+    rewrite flat_map_app, !flat_map_map'. cbn [fst snd]. f_equal.
+    apply flat_map_ext. intro f. rewrite map_map. reflexivity. }
+  assert (Hkvnd : NoDup (map fst kv)).
+  { subst kv. rewrite map_app, !map_map. cbn [fst]. rewrite Hlbl. exact HndL. }
+  assert (Hbr : forall k vs, In (k, vs) kv -> forall f, f_label f = k -> backrefs_of dsF f = vs).
+  { intros k vs Hin f Hf. unfold backrefs_of. rewrite Hkv, Hf. apply kv_lookup; auto. }
+  f_equal. f_equal.
+  - (* manual footnotes *)
+    unfold resolve_footnotes. apply map_ext_in. intros f Hf. unfold manual_out. f_equal.
+    apply (Hbr (f_label f)); auto. subst kv. apply in_or_app. right.
+    apply in_map_iff. exists f. auto.
+  - (* auto-numbered footnotes *)
+    rewrite <- Hfn at 1. rewrite map_map. rewrite <- (map_id outs) at 2. apply map_ext_in. intros o Ho.
+    destruct (Hall o Ho) as [Hnum [Hdisp _]].
+    assert (Hl : label_of dsF (fo_fn o) = fo_display o).
+    { unfold label_of. subst dsF. unfold after_manual, upd. cbn [ds_labels]. rewrite Hlab2. subst ds1. cbn [ds_labels after_auto upd ds_init app].
+      rewrite (dget_map_key (fun o => f_label (fo_fn o)) fo_display outs o); auto.
+      rewrite Hlbl. eapply NoDup_app_l. exact HndL. }
+    unfold auto_out. rewrite Hl.
+    rewrite (Hbr (f_label (fo_fn o)) (fo_backrefs o)); auto.
+    + rewrite Hdisp at 2. rewrite dval_show, <- Hnum. destruct o; reflexivity.
+    + subst kv. apply in_or_app. left. apply in_map_iff. exists o. auto.
+  - rewrite <- Herr2. subst dsF. reflexivity.
+Qed.
+
+(* ================================================================ docutils/nodes.py: the registry methods *)
+Theorem note_methods_doc_eq g (f : fn) (r : rf) :
+  note_autofootnote_doc g f = note_autofootnote g f /\
+  note_footnote_doc g f = note_footnote g f /\
+  note_autofootnote_ref_doc g r = note_autofootnote_ref g r /\
+  note_footnote_ref_doc g r = note_footnote_ref g r.
+Proof. repeat split; reflexivity. Qed.
+
+(* note_explicit_target -> set_name_id_map: when the name is not registered yet (the only case for a footnote
+   that render_footnote_reference lets through in a document whose names are footnote labels) it is the model
+   operation; the branch through set_duplicate_name_id (dupnames) is not modelled *)
+Theorem note_explicit_target_doc_eq g (f : fn) :
+  mem_str (f_label f) (g_nameids g) = false ->
+  note_explicit_target_doc g f = Ok (note_explicit_target g f).
+Proof.
+  intro H. unfold note_explicit_target_doc, set_name_id_map_doc, fn_names. cbn [fold_res bind].
+  rewrite H. reflexivity.
+Qed.
